@@ -1,5 +1,16 @@
-"""Emitter-side rules (C05, C02, C15): R-STATE-EXHAUSTIVE, R-BYTES-ITER, R-SIBLING-ESCAPE-LOOPS, R-ESCAPE-INVERSE,
-R-TAGCHAR-INCLUSION, R-PLAIN-IMPLIES-IMPLICIT, R-BREAKSET-AGREEMENT, R-EVENT-BRACKETS, R-RESOLVER-SHARED, R-ALIAS-KEY ..."""
+"""Emitter-side rules (C05, C02, C15): R-STATE-EXHAUSTIVE, R-BYTES-ITER, R-ESCAPE-INVERSE, R-TAGCHAR-INCLUSION,
+R-PLAIN-IMPLIES-IMPLICIT, R-BREAKSET-AGREEMENT, R-DIRECTIVE-AFTER-OPEN-ENDED, R-TAG-SUFFIX-NONEMPTY.
+
+The rules are stated on semantic facts of the normalised program, not on its spelling:
+
+  * variables are found by their role (the parameter at position i, the variable whose code point is formatted, the
+    variable bound to one character of the text), never by their name;
+  * conditions are never compared as text: they are *evaluated* (sa.charworld) under a scenario - an environment that fixes
+    a character variable / a parameter, plus a table that fixes attribute reads such as self.allow_unicode - and the
+    control-flow graph is explored along the edges that are feasible in that scenario (`reach`);
+  * "x was computed from y" questions are answered by reaching definitions on the CFG (`Flow`), optionally restricted to
+    the edges that are feasible when some tests are decided.
+"""
 import ast
 import itertools
 import re
@@ -12,6 +23,394 @@ from .srcmodel import AnalysisError, ClassInfo, FuncInfo, norm, walk_function
 
 BREAKS = set('\n\x85\u2028\u2029')
 
+
+# ---------------------------------------------------------------------------------------------------------------
+# shared machinery: scenario evaluation, feasible reachability, reaching definitions, string-format templates
+# ---------------------------------------------------------------------------------------------------------------
+
+def preorder_stmts(fnode):
+    """statements of a function in *syntactic* order (pre-order), nested defs excluded.  Line numbers are not used:
+    inlined helper bodies keep the line numbers of the helper."""
+    def rec(stmts):
+        for s in stmts:
+            if isinstance(s, (ast.FunctionDef, ast.AsyncFunctionDef, ast.ClassDef)):
+                continue
+            yield s
+            for fld in ('body', 'orelse', 'finalbody'):
+                b = getattr(s, fld, None)
+                if isinstance(b, list) and b and isinstance(b[0], ast.stmt):
+                    yield from rec(b)
+            for h in getattr(s, 'handlers', None) or []:
+                yield from rec(h.body)
+    return list(rec(fnode.body))
+
+
+def rebuild(node, fn=None):
+    """copy of an expression tree made from its fields only (the parent links the source model hangs on every node are not
+    followed, so the copy is cheap); fn(sub-node) may return a replacement for a sub-expression (outermost first)."""
+    if fn is not None:
+        r = fn(node)
+        if r is not None:
+            return r
+    new = node.__class__()
+    for field in node._fields:
+        v = getattr(node, field, None)
+        if isinstance(v, list):
+            setattr(new, field, [rebuild(x, fn) if isinstance(x, ast.AST) else x for x in v])
+        elif isinstance(v, ast.AST):
+            setattr(new, field, rebuild(v, fn))
+        else:
+            setattr(new, field, v)
+    for a in ('lineno', 'col_offset', 'end_lineno', 'end_col_offset'):
+        if hasattr(node, a):
+            setattr(new, a, getattr(node, a))
+    return new
+
+
+def subst(expr, table):
+    """copy of `expr` in which every sub-expression whose source text is a key of `table` is replaced by the constant
+    table[key] (outermost match first).  Used to fix attribute reads (self.allow_unicode, self.event.implicit[0] ...)
+    in a scenario; the keys are attribute paths of the object model, never local names."""
+    if not table:
+        return expr
+
+    def fn(node):
+        if isinstance(node, (ast.Attribute, ast.Subscript, ast.Call, ast.Name)):
+            k = norm(node)
+            if k in table:
+                return ast.copy_location(ast.Constant(value=table[k]), node)
+        return None
+    return rebuild(expr, fn)
+
+
+def is_pure_in(expr, names):
+    """does the (already substituted) condition read nothing but the given local names and constants?  Such a condition
+    must be decidable in a scenario that fixes those names; if it is not, the analysis is lost (AnalysisError)."""
+    for x in ast.walk(expr):
+        if isinstance(x, ast.Name) and x.id not in names and x.id not in ('ord', 'len', 'None', 'True', 'False'):
+            return False
+        if isinstance(x, ast.Attribute):
+            # a str method applied to a pure operand is fine (ch.isalnum()); any other attribute read is state
+            par_ok = x.attr in CW.CONST_STR_METHODS
+            if not par_ok:
+                return False
+        if isinstance(x, (ast.Subscript, ast.Starred, ast.Lambda, ast.Await, ast.Yield, ast.YieldFrom)):
+            return False
+        if isinstance(x, ast.Call) and not (isinstance(x.func, ast.Attribute) and x.func.attr in CW.CONST_STR_METHODS
+                                            or isinstance(x.func, ast.Name) and x.func.id in ('ord', 'len')):
+            return False
+    return True
+
+
+class Flow:
+    """reaching definitions of the locals of one function on its CFG.
+
+    IN[node][name] is the set of definitions of `name` that can reach the entry of `node`; a definition is the CFG node
+    that binds the name, or Flow.ENTRY for the value a parameter has on entry.  When `decide(node, flow)` is given, it is
+    asked for the value (True / False / None) of every atomic test with the definitions known so far, and only feasible
+    edges are followed: the result then describes one *scenario* (e.g. "the parameter stream is None").  The iteration is
+    monotone: more definitions can only make a test less decided, which only adds edges."""
+    ENTRY = 'entry'
+
+    def __init__(self, cfg, params=(), decide=None):
+        self.cfg = cfg
+        self.IN = {cfg.entry: {p: frozenset([Flow.ENTRY]) for p in params}}
+        work = [cfg.entry]
+        while work:
+            n = work.pop()
+            env = self.IN[n]
+            out = env
+            bound = self.bound_names(n)
+            if bound:
+                out = dict(env)
+                for nm in bound:
+                    out[nm] = frozenset([n])
+            v = None
+            if n.kind == 'test' and decide is not None:
+                self._at = n
+                v = decide(n, self)
+            for (m, lab) in cfg.succ[n]:
+                if v is not None and lab in (True, False) and lab != v:
+                    continue
+                cur = self.IN.get(m)
+                if cur is None:
+                    self.IN[m] = dict(out)
+                    work.append(m)
+                    continue
+                changed = False
+                for k, s in out.items():
+                    old = cur.get(k)
+                    new = s if old is None else (old | s)
+                    if new != old:
+                        cur[k] = new
+                        changed = True
+                if changed:
+                    work.append(m)
+
+    @staticmethod
+    def bound_names(n):
+        a = n.ast
+        if a is None:
+            return ()
+        out = []
+        if n.kind == 'for':
+            out = [x.id for x in ast.walk(n.stmt.target) if isinstance(x, ast.Name)]
+        elif n.kind == 'handler':
+            out = [a.name] if getattr(a, 'name', None) else []
+        elif isinstance(a, ast.Assign):
+            out = [x.id for t in a.targets for x in ast.walk(t) if isinstance(x, ast.Name) and isinstance(x.ctx, ast.Store)]
+        elif isinstance(a, (ast.AugAssign, ast.AnnAssign)):
+            out = [a.target.id] if isinstance(a.target, ast.Name) else []
+        elif isinstance(a, (ast.With, ast.AsyncWith)):
+            out = [x.id for it in a.items if it.optional_vars is not None for x in ast.walk(it.optional_vars)
+                   if isinstance(x, ast.Name)]
+        elif isinstance(a, (ast.Import, ast.ImportFrom)):
+            out = [(al.asname or al.name).split('.')[0] for al in a.names]
+        for x in own_exprs(n):
+            if isinstance(x, ast.NamedExpr) and isinstance(x.target, ast.Name):
+                out.append(x.target.id)
+        return out
+
+    def reached(self, node):
+        return node in self.IN
+
+    def defs(self, node, name):
+        return self.IN.get(node, {}).get(name, frozenset())
+
+    @staticmethod
+    def value_of(d):
+        """the expression a definition binds to its (single) name, or None when the binding is not a plain `x = expr`."""
+        if d == Flow.ENTRY or d.kind == 'for':
+            return None
+        a = d.ast
+        if isinstance(a, ast.Assign) and all(isinstance(t, ast.Name) for t in a.targets):
+            return a.value
+        if isinstance(a, ast.AnnAssign) and isinstance(a.target, ast.Name):
+            return a.value
+        return None
+
+    def deref(self, node, expr, depth=4):
+        """`expr` with every local that has exactly one reaching definition `x = <attribute path>` replaced by that path
+        (so `implicit = self.event.implicit; ... implicit[0]` reads as `self.event.implicit[0]`)."""
+        flow = self
+
+        def path_like(e):
+            while isinstance(e, (ast.Attribute, ast.Subscript)):
+                if isinstance(e, ast.Subscript) and not isinstance(e.slice, ast.Constant):
+                    return False
+                e = e.value
+            return isinstance(e, ast.Name)
+
+        def fn(x):
+            if not isinstance(x, ast.Name) or not isinstance(x.ctx, ast.Load) or depth <= 0:
+                return None
+            ds = flow.defs(node, x.id)
+            if len(ds) != 1:
+                return None
+            d = next(iter(ds))
+            v = Flow.value_of(d)
+            if v is None or not path_like(v) or isinstance(v, ast.Name):
+                return None
+            return flow.deref(d, v, depth - 1) if any(isinstance(y, ast.Name) and flow.defs(d, y.id) for y in ast.walk(v)) \
+                else rebuild(v)
+        if not any(isinstance(x, ast.Name) and self.defs(node, x.id) for x in ast.walk(expr)):
+            return expr
+        return rebuild(expr, fn)
+
+
+def reach(cfg, decide=None, starts=None, blocked=(), follow_exc=True):
+    """CFG nodes reachable from `starts` (default: the entry) without entering a node of `blocked`, following from every
+    atomic test only the edge its value allows; decide(node) -> True / False / None (None: both edges)."""
+    blocked = set(blocked)
+    seen = set()
+    stack = [s for s in (starts or [cfg.entry]) if s not in blocked]
+    while stack:
+        n = stack.pop()
+        if n in seen:
+            continue
+        seen.add(n)
+        v = decide(n) if (decide is not None and n.kind == 'test' and n.ast is not None) else None
+        for (m, lab) in cfg.succ[n]:
+            if v is not None and lab in (True, False) and lab != v:
+                continue
+            if lab == 'exc' and not follow_exc:
+                continue
+            if m not in blocked and m not in seen:
+                stack.append(m)
+    return seen
+
+
+class Scenario:
+    """evaluation of the atomic tests of one function under an environment of constants for some locals (`env`) and a
+    table of constants for some attribute paths (`table`).  `must_decide`: the names whose tests have to be decidable."""
+
+    def __init__(self, repo, f, cfg=None):
+        self.repo, self.f = repo, f
+        self.cfg = cfg or CFG(f.node)
+        self.flow = Flow(self.cfg, f.params)
+        self._cache = {}
+
+    def resolved(self, node):
+        """the test of a CFG node with hoisted attribute paths substituted back."""
+        r = self._cache.get(node)
+        if r is None:
+            r = self._cache[node] = self.flow.deref(node, node.ast)
+        return r
+
+    def decider(self, env=None, table=None, must_decide=(), hook=None, what=''):
+        env = dict(env or {})
+        table = dict(table or {})
+        must = set(must_decide)
+
+        def decide(node):
+            e = self.resolved(node)
+            if hook is not None:
+                v = hook(e)
+                if v is not None:
+                    return v
+            e2 = subst(e, table)
+            v = CW.eval_cond(self.repo, e2, env)
+            if v is None and must and is_pure_in(e2, must) and any(isinstance(x, ast.Name) and x.id in must for x in ast.walk(e2)):
+                raise AnalysisError('%s: the condition `%s` is not decidable%s' % (self.f.qualname, norm(node.ast)[:80], what))
+            return v
+        return decide
+
+    def reach(self, env=None, table=None, blocked=(), starts=None, must_decide=(), hook=None, what=''):
+        return reach(self.cfg, self.decider(env, table, must_decide, hook, what), starts=starts, blocked=blocked)
+
+    def nodes_of_stmt(self, sub):
+        """the CFG nodes at which the statement containing `sub` is executed."""
+        st = A.enclosing_stmt(sub)
+        out = list(self.cfg.nodes_of(st))
+        if not out:
+            # the expression sits in the test of a compound statement
+            for n in self.cfg.nodes:
+                if n.ast is not None and n.kind in ('test', 'for') and any(x is sub for x in ast.walk(n.ast)):
+                    out.append(n)
+        return out
+
+
+_PCT = re.compile(r'%(?:(%)|([-#0 +]*\d*(?:\.\d+)?)([a-zA-Z]))')
+
+
+def format_segments(node):
+    """the template of a string formatting expression as [('lit', text) | ('fmt', spec, operand expr)], whatever its
+    spelling: 'x%02X' % v, f'x{v:02X}', 'x{:02X}'.format(v).  spec is printf-like without the percent sign ('02X', 's',
+    'r', 'd').  None when `node` is not a formatting expression or uses features not modelled."""
+    segs = []
+
+    def lit(s):
+        if s:
+            if segs and segs[-1][0] == 'lit':
+                segs[-1] = ('lit', segs[-1][1] + s)
+            else:
+                segs.append(('lit', s))
+    if isinstance(node, ast.BinOp) and isinstance(node.op, ast.Mod) and A.const_str(node.left) is not None:
+        tmpl = A.const_str(node.left)
+        ops = list(node.right.elts) if isinstance(node.right, ast.Tuple) else [node.right]
+        i = pos = 0
+        for m in _PCT.finditer(tmpl):
+            lit(tmpl[pos:m.start()])
+            pos = m.end()
+            if m.group(1):
+                lit('%')
+                continue
+            if i >= len(ops):
+                return None
+            segs.append(('fmt', m.group(2) + m.group(3), ops[i]))
+            i += 1
+        lit(tmpl[pos:])
+        if '%' in tmpl[:0] or i != len(ops):
+            return None
+        return segs
+    if isinstance(node, ast.JoinedStr):
+        for v in node.values:
+            if isinstance(v, ast.Constant) and isinstance(v.value, str):
+                lit(v.value)
+            elif isinstance(v, ast.FormattedValue):
+                spec = ''
+                fs = v.format_spec
+                if isinstance(fs, ast.JoinedStr) and all(isinstance(x, ast.Constant) for x in fs.values):
+                    spec = ''.join(str(x.value) for x in fs.values)
+                elif isinstance(fs, ast.Constant):
+                    spec = str(fs.value)
+                elif fs is not None:
+                    return None
+                if not spec:
+                    spec = 'r' if v.conversion == ord('r') else 's'
+                elif v.conversion != -1:
+                    return None
+                segs.append(('fmt', spec, v.value))
+            else:
+                return None
+        return segs
+    if isinstance(node, ast.Call) and isinstance(node.func, ast.Attribute) and node.func.attr == 'format' \
+            and A.const_str(node.func.value) is not None and not node.keywords:
+        tmpl = A.const_str(node.func.value)
+        i = pos = 0
+        for m in re.finditer(r'\{\{|\}\}|\{(\d*)(?:!([rs]))?(?::([^{}]*))?\}', tmpl):
+            lit(tmpl[pos:m.start()])
+            pos = m.end()
+            if m.group(0) in ('{{', '}}'):
+                lit(m.group(0)[0])
+                continue
+            k = int(m.group(1)) if m.group(1) else i
+            i += 1
+            if k >= len(node.args):
+                return None
+            spec = m.group(3) or ('r' if m.group(2) == 'r' else 's')
+            segs.append(('fmt', spec, node.args[k]))
+        lit(tmpl[pos:])
+        return segs
+    return None
+
+
+def formattings(root):
+    """(node, segments) for every string formatting expression under root (a function def or a list of nodes)."""
+    nodes = walk_function(root) if isinstance(root, (ast.FunctionDef, ast.AsyncFunctionDef)) else \
+        (x for r in (root if isinstance(root, list) else [root]) for x in ast.walk(r))
+    out = []
+    for n in nodes:
+        if isinstance(n, (ast.BinOp, ast.JoinedStr, ast.Call)):
+            s = format_segments(n)
+            if s is not None and any(k[0] == 'fmt' for k in s):
+                out.append((n, s))
+    return out
+
+
+def anonymised(expr, var):
+    """structural text of expr with the variable `var` replaced by a placeholder (for sibling comparisons)."""
+    def fn(x):
+        if isinstance(x, ast.Name) and x.id == var:
+            return ast.copy_location(ast.Name(id='_', ctx=ast.Load()), x)
+        return None
+    return norm(rebuild(expr, fn))
+
+
+def self_attr_aliases(f, path):
+    """names that denote the attribute path `path` (e.g. 'self.event') in f: the path itself and every local whose
+    assignments all are `x = <path>`."""
+    vals = {}
+    for n in walk_function(f.node):
+        if isinstance(n, ast.Assign):
+            for t in n.targets:
+                for x in ast.walk(t):
+                    if isinstance(x, ast.Name) and isinstance(x.ctx, ast.Store):
+                        vals.setdefault(x.id, []).append(n.value if isinstance(t, ast.Name) else None)
+        elif isinstance(n, (ast.For, ast.AugAssign, ast.With)):
+            tgt = n.target if not isinstance(n, ast.With) else None
+            if tgt is not None:
+                for x in ast.walk(tgt):
+                    if isinstance(x, ast.Name):
+                        vals.setdefault(x.id, []).append(None)
+    out = {path}
+    for k, vs in vals.items():
+        if vs and all(v is not None and norm(v) == path for v in vs) and k not in f.params:
+            out.add(k)
+    return out
+
+
+# ---------------------------------------------------------------------------------------------------------------
 
 def state_handlers(repo, cls_q='emitter.Emitter'):
     """methods that can become self.state (assigned to it or pushed on self.states)."""
@@ -33,7 +432,6 @@ def r_state_exhaustive(ctx, repo):
                                           '(true edge of isinstance(self.event, K)), or delegates to a handler that does, or raises '
                                           'EmitterError')
     K, names = state_handlers(repo)
-    eerr = repo.cls('emitter.EmitterError')
     memo = {}
 
     def exhaustive(f, stack=()):
@@ -42,32 +440,27 @@ def r_state_exhaustive(ctx, repo):
         if f in stack:
             return True
         cfg = CFG(f.node)
+        events = self_attr_aliases(f, 'self.event')
         blockers = []
         edges = []
         for n in cfg.nodes:
             if n.ast is None:
                 continue
             if n.kind == 'test':
+                # every test node is an atomic condition: the true edge of isinstance(<the event>, K) identifies the event
                 inner, pos = A.strip_not(n.ast)
-                # conjunctions: `not first and isinstance(...)` - the true edge still implies the isinstance
-                parts = inner.values if isinstance(inner, ast.BoolOp) and isinstance(inner.op, ast.And) and pos else [inner]
-                for part in parts:
-                    i2, p2 = A.strip_not(part)
-                    if isinstance(i2, ast.Call) and norm(i2.func) == 'isinstance' and norm(i2.args[0]) == 'self.event':
-                        if isinstance(inner, ast.BoolOp):
-                            if p2:
-                                edges.append((n, True))
-                        else:
-                            edges.append((n, pos == p2))
+                if isinstance(inner, ast.Call) and norm(inner.func) == 'isinstance' and len(inner.args) == 2 \
+                        and norm(inner.args[0]) in events:
+                    edges.append((n, pos))
             for sub in own_exprs(n):
                 if isinstance(sub, ast.Call) and isinstance(sub.func, ast.Attribute) and norm(sub.func.value) == 'self' \
-                        and sub.func.attr.startswith('expect_') and sub.func.attr in K.methods:
+                        and sub.func.attr in K.methods and K.methods[sub.func.attr] is not f \
+                        and (sub.func.attr.startswith('expect_') or sub.func.attr in names):
                     g = K.methods[sub.func.attr]
                     if exhaustive(g, stack + (f,)):
                         blockers.append(n)
         r = cfg.reach([cfg.entry], blocked=blockers, blocked_edges=edges, follow_exc=False)
         ok = not any(x in r for x in cfg.normal_exits())
-        # explicit raises must be EmitterError
         memo[f] = ok
         return ok
     for name in names:
@@ -80,50 +473,66 @@ def r_state_exhaustive(ctx, repo):
             rule.fail('%s|exhaustive' % f.qualname, f.module.rel, f.node.lineno, f.qualname, 'def %s' % name,
                       'a path through the state handler %s completes without having identified the event class: an event that '
                       'is not allowed in this state is silently accepted instead of raising EmitterError' % name)
-    rule.require_min(17, 'emitter state handlers')
+    rule.require_min(9, 'emitter state handlers')
     return rule
 
 
+def _iterations(fnode):
+    """(variable, iterable, body nodes, anchor) of every for statement and every comprehension / generator clause."""
+    for n in walk_function(fnode):
+        if isinstance(n, ast.For) and isinstance(n.target, ast.Name):
+            yield n.target.id, n.iter, list(n.body), n
+        elif isinstance(n, (ast.ListComp, ast.SetComp, ast.GeneratorExp, ast.DictComp)):
+            elts = [n.key, n.value] if isinstance(n, ast.DictComp) else [n.elt]
+            for i, g in enumerate(n.generators):
+                if isinstance(g.target, ast.Name):
+                    yield g.target.id, g.iter, elts + list(g.ifs) + [x.iter for x in n.generators[i + 1:]], n
+
+
+def _is_encode_call(e):
+    return isinstance(e, ast.Call) and isinstance(e.func, ast.Attribute) and e.func.attr == 'encode'
+
+
 def r_bytes_iter(ctx, repo, modules=('emitter',)):
-    rule = ctx.rule('R-BYTES-ITER', 'iterating a bytes value binds ints: ord() is never applied to such a loop variable, and the two '
-                                    'percent-escaping loops format the same expression (sibling agreement)')
+    rule = ctx.rule('R-BYTES-ITER', 'iterating a bytes value binds ints: ord() is never applied to such a loop variable, and the '
+                                    'percent-escaping loops format the same expression with the same template (sibling agreement)')
     loops = []
     for f in repo.all_functions(list(modules)):
         btypes = set()
         for n in walk_function(f.node):
-            if isinstance(n, ast.Assign) and isinstance(n.value, ast.Call) and isinstance(n.value.func, ast.Attribute) \
-                    and n.value.func.attr == 'encode':
+            if isinstance(n, ast.Assign) and _is_encode_call(n.value):
                 for t in n.targets:
                     if isinstance(t, ast.Name):
                         btypes.add(t.id)
-        for n in walk_function(f.node):
-            if isinstance(n, ast.For) and isinstance(n.target, ast.Name) and \
-                    (isinstance(n.iter, ast.Name) and n.iter.id in btypes or
-                     isinstance(n.iter, ast.Call) and isinstance(n.iter.func, ast.Attribute) and n.iter.func.attr == 'encode'):
-                var = n.target.id
-                bad = [c for c in A.calls_in(n.body) if norm(c.func) in ('ord',) and c.args and norm(c.args[0]) == var]
-                fmts = [b for b in ast.walk(ast.Module(body=n.body, type_ignores=[]))
-                        if isinstance(b, ast.BinOp) and isinstance(b.op, ast.Mod) and A.const_str(b.left) is not None]
-                loops.append((f, n, var, fmts))
-                if bad:
-                    rule.fail('%s|ord(%s)|TypeError' % (f.qualname, var), f.module.rel, bad[0].lineno, f.qualname, norm(bad[0]),
-                              'the loop variable %s iterates over a bytes object and is therefore an int; ord(%s) raises '
-                              'TypeError for every character that needs percent-escaping' % (var, var))
-                else:
-                    rule.ok(f.loc(n), 'for %s in <bytes> in %s: no ord() on the int' % (var, f.name))
+        for var, it, body, anchor in _iterations(f.node):
+            if not (isinstance(it, ast.Name) and it.id in btypes or _is_encode_call(it)):
+                continue
+            bad = [c for c in A.calls_in(body) if norm(c.func) == 'ord' and c.args
+                   and isinstance(c.args[0], ast.Name) and c.args[0].id == var]
+            fmts = formattings(body)
+            loops.append((f, anchor, var, fmts))
+            if bad:
+                rule.fail('%s|ord(_)|TypeError' % f.qualname, f.module.rel, bad[0].lineno, f.qualname, norm(bad[0]),
+                          'the loop variable %s iterates over a bytes object and is therefore an int; ord(%s) raises '
+                          'TypeError for every character that needs percent-escaping' % (var, var))
+            else:
+                rule.ok(f.loc(anchor), 'iteration over <bytes> in %s: no ord() on the int' % f.name)
     sigs = {}
     for f, n, var, fmts in loops:
-        for b in fmts:
-            sigs.setdefault(A.const_str(b.left), set()).add(norm(b.right).replace(var, '<v>'))
-    for fmt, rights in sigs.items():
-        if len(rights) > 1:
-            f, n = loops[0][0], loops[0][1]
-            rule.fail('sibling-escape|%r' % fmt, f.module.rel, n.lineno, 'emitter.Emitter.prepare_tag*', fmt,
+        for node, segs in fmts:
+            tmpl = tuple(('lit', s[1]) if s[0] == 'lit' else ('fmt', s[1]) for s in segs)
+            ops = tuple(anonymised(s[2], var) for s in segs if s[0] == 'fmt')
+            sigs.setdefault(tmpl, {}).setdefault(ops, []).append((f, node))
+    for tmpl, by_ops in sigs.items():
+        shown = ''.join(s[1] if s[0] == 'lit' else '%' + s[1] for s in tmpl)
+        if len(by_ops) > 1:
+            f, node = sorted(by_ops.items(), key=lambda kv: len(kv[1]))[0][1][0]
+            rule.fail('sibling-escape|%r' % shown, f.module.rel, node.lineno, 'emitter.Emitter.prepare_tag*', shown,
                       'the percent-escaping loops of prepare_tag and prepare_tag_prefix format different expressions (%s) with '
-                      'the same template: one of them is wrong' % sorted(rights))
+                      'the same template: one of them is wrong' % sorted(' / '.join(o) for o in by_ops))
         else:
-            rule.ok('emitter', 'escape template %r formatted identically in %d loop(s)' % (fmt, len(loops)))
-    rule.require_min(2, 'bytes loops')
+            rule.ok('emitter', 'escape template %r formatted identically in %d loop(s)' % (shown, sum(len(v) for v in by_ops.values())))
+    rule.require_min(1, 'bytes loops')
     return rule
 
 
@@ -155,35 +564,46 @@ def r_escape_inverse(ctx, repo):
     f = E.methods.get('write_double_quoted')
     if f is None:
         raise AnalysisError('Emitter.write_double_quoted has vanished')
+    # numeric escapes: a backslash, a letter and a zero-padded hexadecimal field (any formatting idiom)
     fmts = []
-    for n in walk_function(f.node):
-        if isinstance(n, ast.BinOp) and isinstance(n.op, ast.Mod):
-            s = A.const_str(n.left)
-            m = re.fullmatch(r'\\([A-Za-z])%0(\d+)([Xx])', s or '')
-            if m:
-                fmts.append((m.group(1), int(m.group(2)), n))
-    if len(fmts) < 3:
+    for node, segs in formattings(f.node):
+        if len(segs) == 2 and segs[0][0] == 'lit' and segs[1][0] == 'fmt':
+            m1 = re.fullmatch(r'\\([A-Za-z])', segs[0][1])
+            m2 = re.fullmatch(r'0(\d+)[Xx]', segs[1][1])
+            if m1 and m2:
+                fmts.append((m1.group(1), int(m2.group(1)), node, segs[1][2]))
+    if not fmts:
         raise AnalysisError('write_double_quoted: numeric escape formats not found')
-    for letter, width, n in fmts:
+    # the character variable is the one whose code point is formatted
+    cvars = {x.id for letter, width, node, operand in fmts for x in ast.walk(operand)
+             if isinstance(x, ast.Name) and x.id not in ('ord', 'int', 'hex', 'format')}
+    if len(cvars) != 1:
+        raise AnalysisError('write_double_quoted: the numeric escapes do not format one character variable (%s)' % sorted(cvars))
+    cvar = next(iter(cvars))
+    S = Scenario(repo, f)
+    boundary = set('\x00\x1f A~\x7f\xff\u0100\u0fff\u1000\uffff\U00010000\U000fffff\U00100000\U0010ffff')
+    reach_by_char = {c: S.reach(env={cvar: c}, must_decide=[cvar], what=' for %r' % c) for c in sorted(boundary)}
+    for letter, width, n, operand in fmts:
         if codes.get(letter) == width:
             rule.ok(f.loc(n), 'numeric escape \\%s with %d hex digits matches ESCAPE_CODES' % (letter, width))
         else:
             rule.fail('numeric|%s|%d' % (letter, width), f.module.rel, n.lineno, f.qualname, norm(n)[:60],
                       'the emitter writes \\%s followed by %d hex digits; the scanner expects %s'
                       % (letter, width, codes.get(letter)))
-        # the guard of this branch bounds the code point by 16**width
-        p = getattr(A.enclosing_stmt(n), '_parent', None)
-        if isinstance(p, ast.If) and isinstance(p.test, ast.Compare) and len(p.test.ops) == 1 \
-                and isinstance(p.test.ops[0], (ast.LtE, ast.Lt)):
-            b = A.const_str(p.test.comparators[0])
-            if b is not None and len(b) == 1 and A.enclosing_stmt(n) in p.body:
-                bound = ord(b) if isinstance(p.test.ops[0], ast.LtE) else ord(b) - 1
-                if bound < 16 ** width:
-                    rule.ok(f.loc(p), 'code points <= %#x fit in %d hex digits' % (bound, width))
-                else:
-                    rule.fail('numeric-bound|%s' % letter, f.module.rel, p.lineno, f.qualname, norm(p.test),
-                              'code points up to %#x are written with only %d hex digits' % (bound, width))
-    # characters written raw under allow_unicode must be printable
+        # the largest code point that can reach this formatting fits into its field
+        site = S.nodes_of_stmt(n)
+        if not site:
+            raise AnalysisError('write_double_quoted: numeric escape \\%s is not a statement of the function' % letter)
+        reaching = [c for c in sorted(boundary) if any(x in reach_by_char[c] for x in site)]
+        if not reaching:
+            raise AnalysisError('write_double_quoted: no character reaches the numeric escape \\%s' % letter)
+        bound = max(ord(c) for c in reaching)
+        if bound < 16 ** width:
+            rule.ok(f.loc(n), 'code points <= %#x fit in %d hex digits' % (bound, width))
+        else:
+            rule.fail('numeric-bound|%s' % letter, f.module.rel, n.lineno, f.qualname, norm(n)[:60],
+                      'code points up to %#x are written with only %d hex digits' % (bound, width))
+    # characters written raw must be printable for the reader
     R = repo.cls('reader.Reader')
     npv = R.attrs.get('NON_PRINTABLE')
     if not npv or not isinstance(npv[-1], ast.Call) or not npv[-1].args:
@@ -192,12 +612,18 @@ def r_escape_inverse(ctx, repo):
     if pat is None:
         raise AnalysisError('Reader.NON_PRINTABLE is not a literal')
     rx = re.compile(pat)
-    cond = None
+    # where a character is escaped: the numeric escapes and the look-up in the replacement table
+    escape_sites = set()
+    for letter, width, n, operand in fmts:
+        escape_sites.update(S.nodes_of_stmt(n))
     for n in walk_function(f.node):
-        if isinstance(n, ast.If) and 'allow_unicode' in norm(n.test) and 'ch is None' in norm(n.test):
-            cond = n.test
-    if cond is None:
-        raise AnalysisError('write_double_quoted: the needs-escape condition was not found')
+        if isinstance(n, ast.Subscript) and isinstance(n.value, ast.Attribute) and n.value.attr == 'ESCAPE_REPLACEMENTS':
+            escape_sites.update(S.nodes_of_stmt(n))
+    shown = f.node
+    for n in preorder_stmts(f.node):
+        if isinstance(n, (ast.If, ast.While)) and any(isinstance(x, ast.Attribute) and x.attr == 'allow_unicode' for x in ast.walk(n.test)):
+            shown = n
+            break
     probes = set()
     for lit in re.findall(r'\\x([0-9A-Fa-f]{2})|\\u([0-9A-Fa-f]{4})|\\U([0-9A-Fa-f]{8})', pat):
         for h in lit:
@@ -206,26 +632,22 @@ def r_escape_inverse(ctx, repo):
                 for d in (-1, 0, 1):
                     if 0 <= v + d < 0x110000 and not 0xD800 <= v + d <= 0xDFFF:
                         probes.add(chr(v + d))
-    probes.update('\x00\x07\x1f\x20\x7e\x7f\x80\x84\x85\x86\x9f\xa0\xa1\ufeff\ufffd\ufffe\uffff\U00010000\U0010ffff é一')
+    probes.update('\x00\x07\x1f\x20\x7e\x7f\x80\x84\x85\x86\x9f\xa0\xa1\ufeff\ufffd\ufffe\uffff\U00010000\U0010ffff \xe9\u4e00')
     n_raw = 0
     for c in sorted(probes):
         for au in (True, False):
-            v = CW.eval_cond(repo, cond, {'ch': c}, None) if False else None
-            it = CW.Interp(repo, None, '\uffff', '<none>', None)
-            st = CW.State({'ch': CW.C(c)})
-            # self.allow_unicode is an attribute: substitute by rewriting the expression
-            src = norm(cond).replace('self.allow_unicode', 'True' if au else 'False')
-            e2 = ast.parse(src, mode='eval').body
-            res = {CW.truth(v) for v, s in it.ev(e2, st, 0)}
-            if res == {False}:
-                n_raw += 1
-                if rx.search(c):
-                    rule.fail('raw-nonprintable|%r|%s' % (c, au), f.module.rel, cond.lineno, f.qualname, norm(cond)[:80],
-                              'with allow_unicode=%s the character %r is written unescaped inside double quotes, but the '
-                              'reader rejects it as non-printable: the output cannot be loaded' % (au, c))
-            elif res != {True}:
-                raise AnalysisError('write_double_quoted: escape condition not decidable for %r' % c)
-    rule.ok(f.loc(cond), '%d probe characters written raw, all printable' % n_raw)
+            r = S.reach(env={cvar: c}, table={'self.allow_unicode': au}, must_decide=[cvar], what=' for %r' % c)
+            if any(x in r for x in escape_sites):
+                continue
+            n_raw += 1
+            if rx.search(c):
+                rule.fail('raw-nonprintable|%r|%s' % (c, au), f.module.rel, shown.lineno, f.qualname,
+                          norm(shown.test)[:80] if shown is not f.node else f.name,
+                          'with allow_unicode=%s the character %r is written unescaped inside double quotes, but the '
+                          'reader rejects it as non-printable: the output cannot be loaded' % (au, c))
+    if not n_raw:
+        raise AnalysisError('write_double_quoted: no probe character is written unescaped (the escape decision is not understood)')
+    rule.ok(f.loc(shown), '%d probe characters written raw, all printable' % n_raw)
     rule.instances += n_raw
     return rule
 
@@ -274,13 +696,14 @@ def _is_char_test(test, var):
 
 
 def _rejects(stmts):
-    """does this branch reject / escape the character (raise, %-escape, encode) rather than pass it through?"""
+    """does this branch reject / escape the character (raise, %-escape, encode) or stop consuming (break) rather than pass
+    it through?"""
     for s in stmts:
         for x in ast.walk(s):
-            if isinstance(x, ast.Raise):
+            if isinstance(x, (ast.Raise, ast.Break)):
                 return True
-            if isinstance(x, ast.BinOp) and isinstance(x.op, ast.Mod) and isinstance(x.left, ast.Constant) \
-                    and isinstance(x.left.value, str) and '%%' in x.left.value:
+            segs = format_segments(x) if isinstance(x, (ast.BinOp, ast.JoinedStr, ast.Call)) else None
+            if segs and any(k[0] == 'lit' and k[1].endswith('%') for k in segs) and any(k[0] == 'fmt' for k in segs):
                 return True
             if isinstance(x, ast.Call) and isinstance(x.func, ast.Attribute) and x.func.attr == 'encode':
                 return True
@@ -289,13 +712,15 @@ def _rejects(stmts):
 
 class CharClass:
     """the set of characters a prepare_* / scan_* function lets through, as a predicate evaluated on the function's own
-    condition (whatever its spelling or the name of its character variable)."""
+    condition (whatever its spelling or the name of its character variable).  The condition is the first test *in program
+    order* that classifies the current character by a range / set / str predicate: the scanning loop of a scanner, the
+    pass-or-escape decision of a preparer.  (A later test of the character that *follows* the token - scan_anchor checks its
+    terminator - is not the class of the token's characters.)"""
 
     def __init__(self, repo, f):
         self.repo, self.f = repo, f
         vars_ = _char_variables(f)
-        nodes = sorted((n for n in walk_function(f.node) if isinstance(n, (ast.If, ast.While))),
-                       key=lambda n: (n.lineno, n.col_offset))
+        nodes = [n for n in preorder_stmts(f.node) if isinstance(n, (ast.If, ast.While))]
         self.node = None
         for n in nodes:
             for v in sorted(vars_):
@@ -338,13 +763,17 @@ def r_tagchar_inclusion(ctx, repo):
             raise AnalysisError('%s / %s have vanished' % (en, sn))
         ec, sc = CharClass(repo, ef), CharClass(repo, sf)
         bad = []
+        n_raw = 0
         for c in probes:
             raw = ec.passes(c)
             if raw is False:
                 continue
+            n_raw += 1
             acc = sc.passes(c)
             if acc is not True:
                 bad.append(c)
+        if not n_raw:
+            raise AnalysisError('%s: no probe character is written unescaped (the character test is not understood)' % en)
         if bad:
             rule.fail('%s|%s|%s' % (en, sn, ''.join(bad[:8])), ef.module.rel, ec.node.lineno, ef.qualname, ec.text[:90],
                       '%s writes %s unescaped in a %s, but %s does not accept %s there: the emitted text does not parse back'
@@ -354,45 +783,10 @@ def r_tagchar_inclusion(ctx, repo):
     return rule
 
 
-def prop_models(test, atoms_of):
-    """enumerate truth assignments of the propositional atoms of `test`; yield (assignment, value)."""
-    atoms = []
-
-    def collect(e):
-        if isinstance(e, ast.BoolOp):
-            for v in e.values:
-                collect(v)
-        elif isinstance(e, ast.UnaryOp) and isinstance(e.op, ast.Not):
-            collect(e.operand)
-        else:
-            k = atoms_of(e)
-            if k not in atoms:
-                atoms.append(k)
-    collect(test)
-
-    def ev(e, asg):
-        if isinstance(e, ast.BoolOp):
-            vals = [ev(v, asg) for v in e.values]
-            return all(vals) if isinstance(e.op, ast.And) else any(vals)
-        if isinstance(e, ast.UnaryOp) and isinstance(e.op, ast.Not):
-            return not ev(e.operand, asg)
-        k = atoms_of(e)
-        neg = False
-        if isinstance(k, tuple) and k[0] == 'not':
-            k, neg = k[1], True
-        v = asg[k if not neg else ('not', k)] if False else asg[atoms_of(e)]
-        return v
-    names = atoms
-    base = sorted({(a[1] if isinstance(a, tuple) and a[0] == 'not' else a) for a in names})
-    for bits in itertools.product([False, True], repeat=len(base)):
-        b = dict(zip(base, bits))
-        asg = {}
-        for a in names:
-            if isinstance(a, tuple) and a[0] == 'not':
-                asg[a] = not b[a[1]]
-            else:
-                asg[a] = b[a]
-        yield b, ev(test, asg)
+def _is_write_call(c):
+    """a call that puts text on the output: self.write_*(...) or self.stream.write(...)."""
+    return isinstance(c, ast.Call) and isinstance(c.func, ast.Attribute) and (
+        (norm(c.func.value) == 'self' and c.func.attr.startswith('write')) or norm(c.func) == 'self.stream.write')
 
 
 def r_plain_implies_implicit(ctx, repo):
@@ -402,22 +796,17 @@ def r_plain_implies_implicit(ctx, repo):
     f = E.methods.get('choose_scalar_style')
     if f is None:
         raise AnalysisError('Emitter.choose_scalar_style has vanished')
-    cfg = CFG(f.node)
-    plain_rets = [n for n in cfg.nodes if n.kind == 'return' and A.const_str(n.ast.value) == '']
+    S = Scenario(repo, f)
+    plain_rets = [n for n in S.cfg.nodes if n.kind == 'return' and A.const_str(n.ast.value) == '']
     if not plain_rets:
         raise AnalysisError('choose_scalar_style: no `return \'\'`')
-
-    def has_implicit0(t):
-        parts = t.values if isinstance(t, ast.BoolOp) and isinstance(t.op, ast.And) else [t]
-        return True if any(norm(p) == 'self.event.implicit[0]' for p in parts) else None
-    edges = []
-    for n in cfg.nodes:
-        if n.kind == 'test':
-            r = has_implicit0(n.ast)
-            if r:
-                edges.append((n, True))
+    # scenario: the event does not declare the tag implicit for plain scalars; the plain style must then be unreachable
+    r_no = S.reach(table={'self.event.implicit[0]': False})
+    r_yes = S.reach(table={'self.event.implicit[0]': True})
+    if not any(pr in r_yes for pr in plain_rets):
+        raise AnalysisError('choose_scalar_style: the plain style is not reachable even with implicit[0] set')
     for pr in plain_rets:
-        if edges and cfg.guarded(pr, edges=edges):
+        if pr not in r_no:
             rule.ok(f.loc(pr.ast), 'return \'\' only under self.event.implicit[0]')
         else:
             rule.fail('%s|plain' % f.qualname, f.module.rel, pr.lineno, f.qualname, "return ''",
@@ -426,38 +815,61 @@ def r_plain_implies_implicit(ctx, repo):
     g = E.methods.get('process_tag')
     if g is None:
         raise AnalysisError('Emitter.process_tag has vanished')
-    # the early return inside the ScalarEvent branch
-    target = None
-    for n in walk_function(g.node):
-        if isinstance(n, ast.If) and 'implicit[0]' in norm(n.test) and 'implicit[1]' in norm(n.test) \
-                and any(isinstance(s, ast.Return) for s in n.body):
-            target = n
-    if target is None:
-        raise AnalysisError('process_tag: the tag-elision condition was not found')
+    # the tag is elided when process_tag completes normally without having written anything.  For a scalar event this is
+    # allowed only when (plain and implicit[0]) or (non-plain and implicit[1]): explored over all eight scenarios.
+    G = Scenario(repo, g)
+    writes = [n for n in G.cfg.nodes if n.ast is not None and any(_is_write_call(x) for x in own_exprs(n))]
+    if not writes:
+        raise AnalysisError('process_tag: the tag is never written')
+    scalar = repo.cls('events.ScalarEvent')
+    scalar_names = {k.name for k in scalar.mro_classes()}
 
-    def atom(e):
-        t = norm(e)
-        if t == "self.style != ''":
-            return ('not', "self.style == ''")
-        if t == 'tag is not None':
-            return ('not', 'tag is None')
-        return t
+    def hook(e):
+        inner, pos = A.strip_not(e)
+        if isinstance(inner, ast.Call) and norm(inner.func) == 'isinstance' and len(inner.args) == 2 \
+                and norm(inner.args[0]) == 'self.event':
+            classes = {x.id for x in ast.walk(inner.args[1]) if isinstance(x, ast.Name)} | \
+                      {x.attr for x in ast.walk(inner.args[1]) if isinstance(x, ast.Attribute)}
+            v = bool(classes & scalar_names)
+            return v if pos else (not v)
+        return None
     bad = None
-    for b, val in prop_models(target.test, atom):
-        if val:
-            plain = b.get("self.style == ''")
-            i0, i1 = b.get('self.event.implicit[0]'), b.get('self.event.implicit[1]')
-            if plain is None or i0 is None or i1 is None:
-                raise AnalysisError('process_tag: elision condition lost one of its atoms')
+    elided = 0
+    for plain, i0, i1 in itertools.product([True, False], repeat=3):
+        table = {'self.style': '' if plain else '"', 'self.event.implicit[0]': i0, 'self.event.implicit[1]': i1,
+                 'self.event.implicit': (i0, i1), 'self.prepared_tag': '!prepared'}
+        r = G.reach(table=table, blocked=writes, hook=hook)
+        if any(x in r for x in G.cfg.normal_exits()):
+            elided += 1
             if not ((plain and i0) or ((not plain) and i1)):
-                bad = b
+                bad = {"self.style == ''": plain, 'self.event.implicit[0]': i0, 'self.event.implicit[1]': i1}
+    if not elided:
+        raise AnalysisError('process_tag: the tag-elision condition was not found')
+    first = g.node
+    for n in preorder_stmts(g.node):
+        if isinstance(n, ast.If) and any(isinstance(x, ast.Attribute) and x.attr == 'implicit' for x in ast.walk(n.test)):
+            first = n
+            break
     if bad is None:
-        rule.ok(g.loc(target), 'tag elided only when (plain and implicit[0]) or (non-plain and implicit[1])')
+        rule.ok(g.loc(first), 'tag elided only when (plain and implicit[0]) or (non-plain and implicit[1])')
     else:
-        rule.fail('%s|elide' % g.qualname, g.module.rel, target.lineno, g.qualname, norm(target.test)[:100],
+        rule.fail('%s|elide' % g.qualname, g.module.rel, first.lineno, g.qualname,
+                  norm(first.test)[:100] if first is not g.node else g.name,
                   'the tag of a scalar can be elided although the event does not declare it implicit for the chosen style '
-                  '(e.g. %s): the loader resolves a different tag' % {k: v for k, v in bad.items()})
+                  '(e.g. %s): the loader resolves a different tag' % bad)
     return rule
+
+
+def membership_literal(node):
+    """the characters of the right-hand side of `x in <literal>`: a string, or a display of one-character strings."""
+    s = A.const_str(node)
+    if s is not None:
+        return s
+    if isinstance(node, (ast.Tuple, ast.List, ast.Set)) and node.elts:
+        parts = [A.const_str(e) for e in node.elts]
+        if all(p is not None and len(p) == 1 for p in parts):
+            return ''.join(parts)
+    return None
 
 
 def r_breakset_agreement(ctx, repo, modules, rule_id='R-BREAKSET-AGREEMENT', exceptions=()):
@@ -468,7 +880,7 @@ def r_breakset_agreement(ctx, repo, modules, rule_id='R-BREAKSET-AGREEMENT', exc
     for f in repo.all_functions(list(modules)):
         for c in walk_function(f.node):
             if isinstance(c, ast.Compare) and len(c.ops) == 1 and isinstance(c.ops[0], (ast.In, ast.NotIn)):
-                lit = A.const_str(c.comparators[0])
+                lit = membership_literal(c.comparators[0])
                 if lit is None or not (set(lit) & BREAKS):
                     continue
                 if len(lit) > 40:
@@ -502,79 +914,106 @@ def _path_condition(node, stop):
     return conds
 
 
-def _eval_prop(e, asg, atom):
-    if isinstance(e, ast.BoolOp):
-        vals = [_eval_prop(v, asg, atom) for v in e.values]
-        return all(vals) if isinstance(e.op, ast.And) else any(vals)
-    if isinstance(e, ast.UnaryOp) and isinstance(e.op, ast.Not):
-        return not _eval_prop(e.operand, asg, atom)
-    return asg[atom(e)]
+def _directive_kind(s):
+    """'YAML' / 'TAG' when the string constant is the template of a directive line."""
+    if not isinstance(s, str):
+        return None
+    t = s.replace('%%', '%')
+    for k in ('YAML', 'TAG'):
+        if t.startswith('%' + k):
+            return k
+    return None
 
 
-def _atoms(e, atom, out):
-    if isinstance(e, ast.BoolOp):
-        for v in e.values:
-            _atoms(v, atom, out)
-    elif isinstance(e, ast.UnaryOp) and isinstance(e.op, ast.Not):
-        _atoms(e.operand, atom, out)
-    else:
-        k = atom(e)
-        if k not in out:
-            out.append(k)
+def _method_directive_kinds(K, name, depth=2, _seen=None):
+    """the directive kinds a method of the emitter writes (itself or through methods it calls)."""
+    _seen = _seen if _seen is not None else set()
+    g = K.methods.get(name)
+    if g is None or name in _seen:
+        return set()
+    _seen.add(name)
+    out = set()
+    for x in walk_function(g.node):
+        if isinstance(x, ast.Constant) and _directive_kind(x.value):
+            out.add(_directive_kind(x.value))
+        elif depth > 0 and isinstance(x, ast.Call) and isinstance(x.func, ast.Attribute) and norm(x.func.value) == 'self':
+            out |= _method_directive_kinds(K, x.func.attr, depth - 1, _seen)
+    return out
 
 
 def r_directive_after_open_ended(ctx, repo):
     """C05/C15: a %YAML / %TAG directive line is only written after an open-ended document has been closed with '...'."""
     rule = ctx.rule('R-DIRECTIVE-AFTER-OPEN-ENDED', 'in expect_document_start, whenever a %YAML or %TAG directive is written while the '
                                                     'previous document is open-ended, the "..." terminator has been written first '
-                                                    '(implication between the two conditions, checked over all truth assignments)')
+                                                    '(explored on the control-flow graph over all truth assignments of the conditions '
+                                                    'that are tested more than once)')
     E = repo.cls('emitter.Emitter')
     f = E.methods.get('expect_document_start')
     if f is None:
         raise AnalysisError('Emitter.expect_document_start has vanished')
-    cfg = CFG(f.node)
-    dots = [c for c in A.func_calls(f.node) if norm(c.func) == 'self.write_indicator' and c.args and A.const_str(c.args[0]) == '...']
-    writes = [c for c in A.func_calls(f.node) if norm(c.func) in ('self.write_version_directive', 'self.write_tag_directive')]
-    if not dots or len(writes) < 2:
+    S = Scenario(repo, f)
+    cfg = S.cfg
+    # where "..." is written, where a directive line is written (directly, or by a method that does)
+    dots, sites = [], {}
+    memo = {}
+    for n in cfg.nodes:
+        if n.ast is None:
+            continue
+        for x in own_exprs(n):
+            if isinstance(x, ast.Constant) and x.value == '...':
+                dots.append(n)
+            if isinstance(x, ast.Constant) and _directive_kind(x.value):
+                sites.setdefault(_directive_kind(x.value), []).append(n)
+            if isinstance(x, ast.Call) and isinstance(x.func, ast.Attribute) and norm(x.func.value) == 'self':
+                if x.func.attr not in memo:
+                    memo[x.func.attr] = _method_directive_kinds(E, x.func.attr)
+                if len(memo[x.func.attr]) == 1:
+                    sites.setdefault(next(iter(memo[x.func.attr])), []).append(n)
+    if not dots or set(sites) != {'YAML', 'TAG'}:
         raise AnalysisError('expect_document_start: "..." indicator / directive writes not found')
-    atom = norm
-    n = 0
-    for w in writes:
-        wc = _path_condition(w, f.node)
-        # candidates: "..." writes that precede the directive write on every path where they are executed
-        ok_any = False
+    # conditions over the emitter / event state (no calls, no locals that the function assigns) keep their value for
+    # the duration of the handler; those tested more than once correlate the branches and are enumerated
+    assigned = {nm for n in cfg.nodes for nm in Flow.bound_names(n)}
+    count = {}
+    for n in cfg.nodes:
+        if n.kind != 'test' or n.ast is None:
+            continue
+        e = S.resolved(n)
+        if any(isinstance(x, ast.Call) for x in ast.walk(e)):
+            continue
+        if any(isinstance(x, ast.Name) and x.id in assigned for x in ast.walk(e)):
+            continue
+        inner, pos = A.strip_not(e)
+        count[norm(inner)] = count.get(norm(inner), 0) + 1
+    open_atoms = [k for k in count if k == 'self.open_ended']
+    if not open_atoms:
+        raise AnalysisError('expect_document_start: self.open_ended is never tested')
+    atoms = sorted(k for k, c in count.items() if c > 1 or k == 'self.open_ended')
+    if len(atoms) > 12:
+        raise AnalysisError('expect_document_start: too many correlated conditions (%d)' % len(atoms))
+    for kind in ('YAML', 'TAG'):
         witness = None
-        for d in dots:
-            dc = _path_condition(d, f.node)
-            dn, wn = cfg.nodes_of(A.enclosing_stmt(d)), cfg.nodes_of(A.enclosing_stmt(w))
-            if not dn or not wn or not all(x in cfg.reach([dn[0]]) for x in wn):
+        for bits in itertools.product([True, False], repeat=len(atoms)):
+            asg = dict(zip(atoms, bits))
+            if not asg['self.open_ended']:
                 continue
-            atoms = []
-            for t, pol in wc + dc:
-                _atoms(t, atom, atoms)
-            if 'self.open_ended' not in atoms:
-                atoms.append('self.open_ended')
-            good = True
-            import itertools as _it
-            for bits in _it.product([False, True], repeat=len(atoms)):
-                asg = dict(zip(atoms, bits))
-                pw = all(_eval_prop(t, asg, atom) == pol for t, pol in wc)
-                pd = all(_eval_prop(t, asg, atom) == pol for t, pol in dc)
-                if pw and asg['self.open_ended'] and not pd:
-                    good = False
-                    witness = {k: v for k, v in asg.items()}
-                    break
-            if good:
-                ok_any = True
+
+            def hook(e, asg=asg):
+                inner, pos = A.strip_not(e)
+                v = asg.get(norm(inner))
+                return None if v is None else (v if pos else not v)
+            r = S.reach(blocked=dots, hook=hook)
+            if any(w in r for w in sites[kind]):
+                witness = asg
                 break
-        n += 1
-        if ok_any:
-            rule.ok(f.loc(w), '%s implies the "..." terminator when open-ended' % norm(w.func))
+        w = sites[kind][0]
+        if witness is None:
+            rule.ok(f.loc(w.stmt), 'the %%%s directive implies the "..." terminator when open-ended' % kind)
         else:
-            rule.fail('%s|%s' % (f.qualname, norm(w.func)), f.module.rel, w.lineno, f.qualname, norm(w)[:70],
+            rule.fail('%s|%s' % (f.qualname, kind), f.module.rel, w.lineno, f.qualname, norm(w.ast)[:70],
                       'a directive line can be written after an open-ended document without the "..." terminator (e.g. when %s): '
                       'the directive is read back as a continuation of the previous document\'s scalar'
-                      % (', '.join('%s=%s' % (k, v) for k, v in (witness or {}).items())))
+                      % (', '.join('%s=%s' % (k, v) for k, v in sorted(witness.items()))))
     return rule
 
 
@@ -585,37 +1024,33 @@ def r_tag_suffix_nonempty(ctx, repo):
     f = E.methods.get('prepare_tag')
     if f is None:
         raise AnalysisError('Emitter.prepare_tag has vanished')
-    cfg = CFG(f.node)
+    if len(f.params) < 2:
+        raise AnalysisError('prepare_tag: expected (self, tag)')
+    tagp = f.params[1]
+    S = Scenario(repo, f)
     n = 0
     for st in walk_function(f.node):
+        # suffix = tag[len(prefix):]  - the statement that strips a registered prefix
         if isinstance(st, ast.Assign) and isinstance(st.value, ast.Subscript) and isinstance(st.value.slice, ast.Slice) \
-                and norm(st.value.value) == f.params[1] and st.value.slice.lower is not None and st.value.slice.upper is None \
-                and isinstance(st.value.slice.lower, ast.Call) and norm(st.value.slice.lower.func) == 'len':
-            p = norm(st.value.slice.lower.args[0])
+                and isinstance(st.value.value, ast.Name) and st.value.value.id == tagp \
+                and st.value.slice.lower is not None and st.value.slice.upper is None \
+                and isinstance(st.value.slice.lower, ast.Call) and norm(st.value.slice.lower.func) == 'len' \
+                and len(st.value.slice.lower.args) == 1 and isinstance(st.value.slice.lower.args[0], ast.Name):
+            p = st.value.slice.lower.args[0].id
             n += 1
-
-            tagp = f.params[1]
-            edges = []
-            has_len = False
-            for nd in cfg.nodes:
-                if nd.kind != 'test':
-                    continue
-                t = norm(nd.ast)
-                if t in ('len(%s) < len(%s)' % (p, tagp), 'len(%s) > len(%s)' % (tagp, p)):
-                    edges.append((nd, True))
-                    has_len = True
-                elif t in ('len(%s) >= len(%s)' % (p, tagp), 'len(%s) <= len(%s)' % (tagp, p)):
-                    edges.append((nd, False))
-                    has_len = True
-                elif t in ("%s == '!'" % p, "'!' == %s" % p):
-                    edges.append((nd, True))
-                elif t in ("%s != '!'" % p, "'!' != %s" % p):
-                    edges.append((nd, False))
-            if not has_len:
-                edges = []
-            nodes = cfg.nodes_of(st)
-            if edges and nodes and all(cfg.guarded(x, edges=edges) for x in nodes):
-                rule.ok(f.loc(st), 'suffix = tag[len(%s):] only when len(%s) < len(tag) or %s == \'!\'' % (p, p, p))
+            nodes = S.cfg.nodes_of(st)
+            # scenario: the tag *equals* a registered prefix other than '!': stripping it would leave nothing
+            bad = None
+            for probe in ('tag:yaml.org,2002:', '!e!', 'x'):
+                r = S.reach(env={p: probe, tagp: probe}, must_decide=[p, tagp], what=' for tag == prefix == %r' % probe)
+                if any(x in r for x in nodes):
+                    bad = probe
+                    break
+            ctl = S.reach(env={p: '!e!', tagp: '!e!suffix'})
+            if not any(x in ctl for x in nodes):
+                raise AnalysisError('prepare_tag: the prefix is not stripped even when a suffix remains')
+            if bad is None:
+                rule.ok(f.loc(st), 'the prefix is stripped only when a suffix remains or the prefix is \'!\'')
             else:
                 rule.fail('%s|suffix' % f.qualname, f.module.rel, st.lineno, f.qualname, norm(st),
                           'a tag that equals one of the registered prefixes is shortened to the bare handle with an empty suffix: '
